@@ -64,7 +64,7 @@ case "${1:-}" in
           /verif/tools/fuzz_phase.sh "$ID" "${NFV_FUZZ_RUNS:-3000000}" 16 fuzz_history
           CODE=$?
           ;;
-        C09|C10|C16)
+        C09|C10)
           /verif/tools/fuzz_phase.sh "$ID" "${NFV_FUZZ_RUNS:-3000000}" 16 fuzz_history
           CODE=$?
           if [ $CODE -eq 0 ]; then
@@ -72,8 +72,22 @@ case "${1:-}" in
             CODE=$?
           fi
           ;;
-        C04|C05|C06|C07|C11|C13|C14)
+        C16)
+          /verif/tools/fuzz_phase.sh "$ID" "${NFV_FUZZ_RUNS:-1000000}" 16 fuzz_history
+          CODE=$?
+          if [ $CODE -eq 0 ]; then
+            /verif/tools/fuzz_phase.sh "$ID" "${NFV_FUZZ_PLAN_RUNS:-200000}" 16 fuzz_plan
+            CODE=$?
+          fi
+          ;;
+        C04|C05|C07|C13)
           /verif/tools/fuzz_phase.sh "$ID" "${NFV_FUZZ_PLAN_RUNS:-1000000}" 16 fuzz_plan
+          CODE=$?
+          ;;
+        C06|C11|C14)
+          # these oracles re-execute every case many times (partitions, cut points):
+          # 150-400 executions/s per worker
+          /verif/tools/fuzz_phase.sh "$ID" "${NFV_FUZZ_PLAN_RUNS:-200000}" 16 fuzz_plan
           CODE=$?
           ;;
       esac
